@@ -126,6 +126,15 @@ CHECKS = {
              "open+close-on-exec (243) x redirects {default, pipes, discard, user handles, user FILEs without close-on-exec}, plus the whole C10 space: "
              "the started program sees 0, 1, 2 and exactly one more descriptor, the write end of a pipe whose read end the parent holds and that is none "
              "of the streams; the caller's own descriptors are still open afterwards. The concurrent-start part is decided by the C20 harness."),
+    "C13": dict(
+        cat="model_checking", design="3/C13 + Appendix A",
+        technique="exhaustive enumeration of the option space against the real validation code with an independent reference of the documented rules; resource-creating libc calls are intercepted, counted and refused, valid combinations are spawned for real",
+        text="Quick: every setting {type 0..7, 8, -1} x {handle, file, path set/unset} of each stream alone and of every pair of streams over a reduced type "
+             "set, x the 16 shorthand sets x 4 input forms x 5 fork/argv forms (2.3 M calls); thorough: the full 80^3 x 320 = 1.6e8 product. Each call is "
+             "compared with ref_opts (a transcription of reproc.h and the property, not of options.c): must-reject => EINVAL and zero pipe/open/dup/fork "
+             "calls; must-accept => not rejected; out-of-range type => negative, nothing leaked; the two documented-ambiguous zones accept either. Every "
+             "distinct valid combination of the quick space (683) is then started with the real exec and its effective redirect per stream is confirmed "
+             "with the C10 identity oracle."),
 }
 
 NOT_YET = "check not built yet (work in progress; see DESIGN.md section 7 for the build order)"
